@@ -156,10 +156,10 @@ CHECKS = {
             T("TestC04TornLog", (40, 2), (600, 4)),
             T("TestC04TornMutationLog", (1, 2, {"timeout": 900}), (4, 8, {"timeout": 3000})),
             T("TestC04Crash", (1, 6, {"env": {"VERIF_C04_MAXPOINTS": 8}, "timeout": 900}), (8, 8, {"env": {"VERIF_C04_MAXPOINTS": 0, "VERIF_C04_PAR": 3}, "timeout": 3400})),
-            T("TestC04CrashMeta", (1, 7, {"env": {"VERIF_C04_MAXPOINTS": 0}, "timeout": 900}), (3, 7, {"env": {"VERIF_C04_MAXPOINTS": 0, "VERIF_C04_PAR": 1}, "timeout": 3400})),
+            T("TestC04CrashMeta", (1, 8, {"env": {"VERIF_C04_MAXPOINTS": 0}, "timeout": 900}), (3, 8, {"env": {"VERIF_C04_MAXPOINTS": 0, "VERIF_C04_PAR": 1}, "timeout": 3400})),
         ],
         "required_classes": ["outcome/absent", "outcome/present", "point/badger.Put:before", "point/badger.Put:after", "append-after-cut", "mutation-log-cut", "target/newrepo", "target/newversion", "target/newinst", "target/commit"],
-        "rule": "TestC04Crash: a rapid-generated workload (labelmap ingest + 1..6 operations over keyvalue / labelmap / annotation / neuronjson / roi / DAG) and one target operation out of 23 kinds (TestC04CrashMeta: the seven repository-level kinds round-robin, every write point); the write points (store put / delete / batch flush / log append, before and after) the target passes are recorded in an uninterrupted execution, then for EVERY such point (quick: an evenly spaced subset of 8 incl. first and last) a fresh server re-executes the workload, is killed (SIGKILL inside the process) at that point, restarted (every third trial: killed once more at the k-th write of the recovery start-up, then restarted), and checked: the start succeeds; repository metadata is well formed (DAG parent/child symmetry, unique version ids and data uuids, root, locked parents); every observable not touched by the target (whole-server snapshot: all read endpoints of all instances at all versions, DAG, notes, logs) reads as before the crash; a repo-level or single-key target is entirely absent or equals the uninterrupted execution on everything it touches; an absent one can be issued again with the same answer and result; 1..3 further operations are acknowledged and survive a clean restart. TestC04TornMutationLog: a keyvalue instance logs 1..4 puts to its JSON mutation log (10-byte header, then payload); the file is cut at every record boundary -11..+11 bytes and at generated lengths, a server is started on it, GET mutations must answer exactly the complete records, further puts are acknowledged and must be served after the next restart.  TestC04TornLog: a file log of 1..6 generated records is cut at EVERY byte length; ReadAll and StreamAll must return exactly the records wholly inside the prefix, and records appended after the cut must be read back after reopening. Non-trivial: at least one trial in which the server died inside the target operation (crash) / more than one cut (torn log). Distinct = hash of the case.",
+        "rule": "TestC04Crash: a rapid-generated workload (labelmap ingest + 1..6 operations over keyvalue / labelmap / annotation / neuronjson / roi / DAG) and one target operation out of 23 kinds (TestC04CrashMeta: the eight repository-level kinds (incl. repo deletion) round-robin, every write point); the write points (store put / delete / batch flush / log append, before and after) the target passes are recorded in an uninterrupted execution, then for EVERY such point (quick: an evenly spaced subset of 8 incl. first and last) a fresh server re-executes the workload, is killed (SIGKILL inside the process) at that point, restarted (every third trial: killed once more at the k-th write of the recovery start-up, then restarted), and checked: the start succeeds; repository metadata is well formed (DAG parent/child symmetry, unique version ids and data uuids, root, locked parents); every observable not touched by the target (whole-server snapshot: all read endpoints of all instances at all versions, DAG, notes, logs) reads as before the crash; a repo-level or single-key target is entirely absent or equals the uninterrupted execution on everything it touches; an absent one can be issued again with the same answer and result; 1..3 further operations are acknowledged and survive a clean restart. TestC04TornMutationLog: a keyvalue instance logs 1..4 puts to its JSON mutation log (10-byte header, then payload); the file is cut at every record boundary -11..+11 bytes and at generated lengths, a server is started on it, GET mutations must answer exactly the complete records, further puts are acknowledged and must be served after the next restart.  TestC04TornLog: a file log of 1..6 generated records is cut at EVERY byte length; ReadAll and StreamAll must return exactly the records wholly inside the prefix, and records appended after the cut must be read back after reopening. Non-trivial: at least one trial in which the server died inside the target operation (crash) / more than one cut (torn log). Distinct = hash of the case.",
         "assumptions": ["crash = SIGKILL of the server process at a write point (the OS and its page cache survive; power loss is out of scope)",
                         "an interrupted multi-key operation (ingest, merge, cleave, split, annotation post, batch put, instance deletion) may be left partially applied: the data of its instance (and synced instances) at its version and descendants is exempt from the reads-as-before oracle",
                         "observables whose answers differ between two uninterrupted executions of the same workload are left out of the comparison with the reference execution"],
